@@ -20,12 +20,17 @@ def leg(name, engine, runs, **kw):
 PLANS = {
     'C07': {
         'quick': [
-            leg('X', 'X', 40, opts={'ops': 10, 'p_model': 0.3}, weight=16,
-                max_workers=16, selftest=2, timeout=1700),
+            leg('X', 'X', 40, opts={'ops': 10, 'p_model': 0.3}, weight=10,
+                max_workers=10, selftest=2, timeout=1700),
+            leg('S', 'S', 30, opts={'ops': 6, 'p_model': 0.2}, weight=6,
+                max_workers=6, selftest=2, timeout=1700),
         ],
         'thorough': [
-            leg('X', 'X', 400, opts={'ops': 12, 'p_model': 0.35}, weight=16,
-                max_workers=16, selftest=4, timeout=3400, deadline=3500),
+            leg('X', 'X', 320, opts={'ops': 12, 'p_model': 0.35}, weight=9,
+                max_workers=9, selftest=4, timeout=3400, deadline=3500),
+            leg('S', 'S', 320, opts={'ops': 8, 'p_model': 0.25, 'max_devices': 64,
+                                     'max_devices_model': 16}, weight=7,
+                max_workers=7, selftest=4, timeout=3400, deadline=3500),
         ],
         'rule': (
             'Each evaluation is one seeded simulated run: a drawn (z,x,y) mesh '
